@@ -325,6 +325,43 @@ def run_objects(ctx):
                                   'input %r raised %r instead of ConfigError' % (obj, out.exc), wit)
 
 
+def run_registered_defaults(ctx):
+    """Course-wide defaults registered the way plugins/defaults_sample.py shows (values that are objects: a credit schedule, a
+    function table): calls return or raise library errors like any other call."""
+    import mitxgraders as M
+    from mitxgraders.baseclasses import AbstractGrader
+    rng = ctx.rng
+    plans = [
+        (AbstractGrader, {'attempt_based_credit': M.ReciprocalCredit(), 'attempt_based_credit_msg': True}, lambda: M.StringGrader(answers='cat'), 'cat', {'attempt': 2}),
+        (AbstractGrader, {'attempt_based_credit': M.LinearCredit()}, lambda: M.FormulaGrader(answers='x', variables=['x']), 'x', {'attempt': 3}),
+        (M.FormulaGrader, {'user_functions': {'f': abs}, 'user_constants': {'c': 2.5}}, lambda: M.FormulaGrader(answers='f(c)*x', variables=['x']), '2.5*x', {}),
+        (M.MatrixGrader, {'entry_partial_credit': 'proportional'}, lambda: M.MatrixGrader(answers='[1,2]'), '[1,3]', {}),
+        (M.StringGrader, {'case_sensitive': False, 'wrong_msg': 'no {braces}'}, lambda: M.StringGrader(answers='Cat'), 'cat!', {}),
+        (M.ListGrader, {'partial_credit': False}, lambda: M.ListGrader(answers=['a', 'b'], subgraders=M.StringGrader()), ['a', 'x'], {}),
+    ]
+    for i in range(ctx.pick(12, 120)):
+        cls, defaults, make, inp, kw = plans[i % len(plans)]
+        cls.register_defaults(dict(defaults))
+        try:
+            made = lib.call(ctx, make)
+            if not made.returned:
+                if not is_mitx(made.exc):
+                    ctx.violation('C02:registered_defaults:constructor:' + type(made.exc).__name__, repr(made.exc), {'registered_on': cls.__name__, 'defaults': defaults})
+                continue
+            for debug_inp in (inp, rng.choice(GG.GARBAGE)):
+                out = lib.call(ctx, made.value, None, list(debug_inp) if isinstance(debug_inp, list) else debug_inp, **kw)
+                ctx.ev()
+                ctx.count('calls')
+                ctx.count('registered_defaults_calls')
+                wit = {'registered_on': cls.__name__, 'defaults': defaults, 'input': debug_inp, 'outcome': out.brief()}
+                ctx.nontrivial(['regdef', cls.__name__, i, repr(debug_inp)[:40]])
+                if not out.returned and not is_mitx(out.exc):
+                    ctx.violation('C02:registered_defaults:foreign_exception:' + type(out.exc).__name__,
+                                  'a grader built under registered defaults raised %r' % (out.exc,), wit)
+        finally:
+            cls.clear_registered_defaults()
+
+
 class _Text(str):
     """A subclass of str: text like any other."""
 
@@ -446,6 +483,7 @@ def run(ctx):
     if ctx.inconclusive:
         return
     run_objects(ctx)
+    run_registered_defaults(ctx)
     run_text_subclasses(ctx)
     run_table(ctx)
     ctx.count('distinct_inner_foreign_classes', len([k for k in ctx.counters if k.startswith('inner_foreign:')]))
